@@ -133,6 +133,10 @@ fn fxset(ids: &[u64]) -> FxSet {
 }
 
 pub fn check_case(o: &mut CompOutcome, c: &Case, light: bool) {
+    super::guarded(o, "C11", &|| format!("{:?}", c), &mut |o| check_case_inner(o, c, light));
+}
+
+fn check_case_inner(o: &mut CompOutcome, c: &Case, light: bool) {
     o.cases += 1;
     let idx = indexer(&c.acks);
     let all_grouped = |set: &[u64]| oracle_group_commit(set, &c.acks);
